@@ -204,8 +204,11 @@ class GeminiClientProtocol(asyncio.Protocol):
                             break
                 try:
                     body = self.buffer.decode(charset)
-                except (UnicodeDecodeError, LookupError) as e:
-                    # LookupError: the server declared a charset we don't know
+                except (ValueError, LookupError) as e:
+                    # LookupError: the server declared a charset we don't know.
+                    # ValueError covers UnicodeDecodeError and the plain
+                    # UnicodeError/ValueError some codecs and labels raise
+                    # ("undefined", "idna", a NUL in the label)
                     self.response_future.set_exception(e)
                     return
             else:
@@ -442,8 +445,11 @@ class TitanClientProtocol(asyncio.Protocol):
                             break
                 try:
                     body = self.buffer.decode(charset)
-                except (UnicodeDecodeError, LookupError) as e:
-                    # LookupError: the server declared a charset we don't know
+                except (ValueError, LookupError) as e:
+                    # LookupError: the server declared a charset we don't know.
+                    # ValueError covers UnicodeDecodeError and the plain
+                    # UnicodeError/ValueError some codecs and labels raise
+                    # ("undefined", "idna", a NUL in the label)
                     self.response_future.set_exception(e)
                     return
             else:
